@@ -99,6 +99,9 @@ pub fn show_secs(secs: &[Section]) -> serde_json::Value {
 }
 
 pub fn check_fidelity(rep: &mut Report, secs: &[Section], crlf: bool, branch: bool) {
+    if rep.verdict_clear() {
+        return;
+    }
     if let Some(_) = fidelity_fails(secs, crlf, branch) {
         let min = shrink(secs.to_vec(), crlf, branch);
         let (got, want) = fidelity_fails(&min, crlf, branch).unwrap();
@@ -236,6 +239,9 @@ pub fn tie(rep: &mut Report, reqs: &[String], impl_out: &[String], inputs: &[(Ve
     for i in 0..reqs.len() {
         if impl_out[i] != model_out[i] {
             rep.disagreements_checked += 1;
+            if shown >= 6 {
+                continue; // count, but do not shrink more than a handful
+            }
             // minimise the disagreeing input bytewise (drop lines, then drop bytes)
             let (bytes, branch) = &inputs[i];
             let min = shrink_bytes(bytes, *branch, &rep.workdir);
